@@ -2,7 +2,10 @@ package connect
 
 import (
 	"bytes"
+	"context"
 	"encoding/binary"
+	"io"
+	"net/http"
 	"runtime"
 )
 
@@ -202,5 +205,60 @@ func HarnessC09UnaryLimit() {
 	} else {
 		check(err == nil, "a unary message within the limit is accepted")
 		check(err != nil || bytesEq(m, plain), "an accepted unary message is intact")
+	}
+}
+
+// HarnessC09UnaryDeclaredLength: a Connect unary message whose HTTP
+// Content-Length (true or not) is far above the read limit: on the handler
+// side and on the client side the receiver must not size buffers from the
+// declared length.
+//
+//verif:harness property=C09 stubs=grow,json,wire
+func HarnessC09UnaryDeclaredLength() {
+	const M = 4
+	declared := nondetInt64("contentLength")
+	assume(declared >= -1 && declared <= 1<<26)
+	// small, or clearly oversize (so that "substantially more than the limit"
+	// means the same thing on the symbolic and on the native side)
+	assume(declared <= 1024 || declared >= 1<<24)
+	body := nondetBytes("body", bound("unaryBodyLen", 6, 7))
+	clientSide := nondetBool("clientSide")
+	userCalls := 0
+	handler := NewUnaryHandler("/pkg.Svc/Method", func(ctx context.Context, req *Request[[]byte]) (*Response[[]byte], error) {
+		userCalls++
+		check(len(*req.Msg) <= M, "user code never receives a message above the read limit")
+		out := []byte{1}
+		return NewResponse(&out), nil
+	}, stackHandlerOptions(WithReadMaxBytes(M))...)
+	verifMaxGrow = 0
+	before := uint64(0)
+	if !verifSymbolic() {
+		before = allocatedBytes()
+	}
+	if clientSide {
+		header := http.Header{"Content-Type": {"application/proto"}}
+		tr := &cannedTransport{resp: &http.Response{StatusCode: 200, Status: "200 OK", ProtoMajor: 2, Header: header, ContentLength: declared, Body: io.NopCloser(&wholeReader{data: body})}}
+		client := NewClient[[]byte, []byte](tr, stackURL, stackClientOptions(0, WithReadMaxBytes(M))...)
+		in := []byte{1}
+		res, err := client.CallUnary(context.Background(), NewRequest(&in))
+		if len(body) > M {
+			check(err != nil, "a unary response above the read limit is rejected")
+		} else {
+			check(err == nil && bytesEq(*res.Msg, body), "a unary response within the read limit is accepted intact")
+		}
+	} else {
+		rec := newRecWriter()
+		req := &http.Request{Method: "POST", ProtoMajor: 2, ContentLength: declared, Header: http.Header{"Content-Type": {"application/proto"}}, Body: io.NopCloser(&wholeReader{data: body})}
+		handler.ServeHTTP(rec, req)
+		if len(body) > M {
+			check(userCalls == 0, "a unary request above the read limit never reaches user code")
+		} else {
+			check(userCalls == 1, "a unary request within the read limit reaches user code")
+		}
+	}
+	if verifSymbolic() {
+		check(verifMaxGrow <= 4096, "buffers are not sized from a declared length above the read limit")
+	} else {
+		check(allocatedBytes()-before < 1<<20, "buffers are not sized from a declared length above the read limit")
 	}
 }
